@@ -805,7 +805,7 @@ var (
 	c06Units   = []string{"a", "b", "\n", "é", "\xff", "\xe2\x82"}
 	c06UnitsWB = []string{"a", "b", "\n", "\xff", "\xe2\x82"} // no non-ASCII word character
 	// class family: letters of both cases, digit, blank, underscore, punctuation, newline, vertical tab (in .NET's \\s, not in RE2's), Latin-1 and Greek letters, invalid byte
-	c06UnitsClass = []string{"a", "Z", "5", " ", "_", "-", "\n", "\v", "é", "Ω", "\xff"}
+	c06UnitsClass = []string{"a", "Z", "5", " ", "_", "-", "\n", "\v", "é", "Ω", "\xff", "٣"}
 	// case family: the fold orbits {a A}, {é É}, {k K U+212A KELVIN SIGN}, {s S U+017F LONG S}
 	c06UnitsCase = []string{"a", "A", "é", "É", "k", "K", "K", "s", "S", "ſ"}
 	// escape family
